@@ -174,12 +174,27 @@ pub struct PairSys {
     /// the remaining translatable sequences ("noise": codes one set or the other does not define, e.g. the
     /// fake-shift E0 F0 59 -> E0 B6) are fed to both keyboards without comparing their own results, so that
     /// whatever they leave behind is observed by the key sequences that follow
-    alphabet: Vec<(Vec<u8>, Vec<u8>, bool)>,
+    alphabet: Vec<PairAct>,
 }
 
-fn type_bytes<S: ScancodeSet>(k: &mut Keyboard<Wrap, S>, bytes: &[u8]) -> String {
+/// one action of the pair system: the Set 2 bytes, their i8042 translation, whether the two keyboards' results are
+/// compared, and whether a line glitch (one stray bit, then the driver's timeout `clear()`) hits both keyboards just
+/// before the last byte - i.e. while a prefix is pending
+#[derive(Clone, Debug, PartialEq)]
+pub struct PairAct {
+    pub s2: Vec<u8>,
+    pub s1: Vec<u8>,
+    pub compare: bool,
+    pub glitch: bool,
+}
+
+fn type_bytes<S: ScancodeSet>(k: &mut Keyboard<Wrap, S>, bytes: &[u8], glitch: bool) -> String {
     let mut out = vec![];
-    for b in bytes {
+    for (i, b) in bytes.iter().enumerate() {
+        if glitch && i + 1 == bytes.len() {
+            let _ = k.add_bit(false);
+            k.clear();
+        }
         match k.add_byte(*b) {
             Ok(Some(ev)) => {
                 let t = format!("{:?} {:?}", ev.code, ev.state);
@@ -194,7 +209,7 @@ fn type_bytes<S: ScancodeSet>(k: &mut Keyboard<Wrap, S>, bytes: &[u8]) -> String
 
 impl Sys for PairSys {
     type S = (Rid<Keyboard<Wrap, ScancodeSet2>>, Rid<Keyboard<Wrap, ScancodeSet1>>);
-    type A = (Vec<u8>, Vec<u8>, bool);
+    type A = PairAct;
     type O = ();
     fn init(&self) -> Self::S {
         (
@@ -202,20 +217,20 @@ impl Sys for PairSys {
             Rid(Keyboard::new(ScancodeSet1::new(), Wrap(self.layout as u8), self.mode)),
         )
     }
-    fn alphabet(&self) -> &[(Vec<u8>, Vec<u8>, bool)] {
+    fn alphabet(&self) -> &[PairAct] {
         &self.alphabet
     }
-    fn step(&self, s: &Self::S, a: &(Vec<u8>, Vec<u8>, bool)) -> Step<Self::S, ()> {
+    fn step(&self, s: &Self::S, a: &PairAct) -> Step<Self::S, ()> {
         let mut k2 = s.0 .0.clone();
         let mut k1 = s.1 .0.clone();
-        let o2 = catch_unwind(AssertUnwindSafe(|| type_bytes(&mut k2, &a.0))).unwrap_or_else(|_| "PANIC".into());
-        let o1 = catch_unwind(AssertUnwindSafe(|| type_bytes(&mut k1, &a.1))).unwrap_or_else(|_| "PANIC".into());
-        let bad = if a.2 && o1 != o2 {
+        let o2 = catch_unwind(AssertUnwindSafe(|| type_bytes(&mut k2, &a.s2, a.glitch))).unwrap_or_else(|_| "PANIC".into());
+        let o1 = catch_unwind(AssertUnwindSafe(|| type_bytes(&mut k1, &a.s1, a.glitch))).unwrap_or_else(|_| "PANIC".into());
+        let bad = if a.compare && o1 != o2 {
             Some(Bad {
-                key: format!("xlate/e2e/{}/{}/{}", LAYOUT_NAMES[self.layout], mode_name(self.mode), hex(&a.0).replace(' ', "")),
+                key: format!("xlate/e2e/{}/{}/{}", LAYOUT_NAMES[self.layout], mode_name(self.mode), format!("{}{}", hex(&a.s2).replace(' ', ""), if a.glitch { "+glitch" } else { "" })),
                 text: format!(
-                    "layout {} mode {}: typing Set 2 bytes {} gives '{}' but the translated Set 1 bytes {} give '{}'",
-                    LAYOUT_NAMES[self.layout], mode_name(self.mode), hex(&a.0), o2, hex(&a.1), o1
+                    "layout {} mode {}: typing Set 2 bytes {}{} gives '{}' but the translated Set 1 bytes {} give '{}'",
+                    LAYOUT_NAMES[self.layout], mode_name(self.mode), hex(&a.s2), if a.glitch { " (a stray bit and clear() before the last byte)" } else { "" }, o2, hex(&a.s1), o1
                 ),
                 expected: o2.clone(),
                 observed: o1.clone(),
@@ -234,14 +249,19 @@ fn pair_bfs(ctx: &mut Ctx, layout: usize, mode: HandleControl) {
         for brk in [false, true] {
             let (s2, s1) = xlate_seq(table, brk, c).unwrap();
             match run(ScancodeSet2::new(), &s2) {
-                Ok(Ok(Some(e))) if e.state != KeyState::SingleShot => alphabet.push((s2, s1, true)),
+                Ok(Ok(Some(e))) if e.state != KeyState::SingleShot => {
+                    if s2.len() >= 2 {
+                        alphabet.push(PairAct { s2: s2.clone(), s1: s1.clone(), compare: true, glitch: true });
+                    }
+                    alphabet.push(PairAct { s2, s1, compare: true, glitch: false })
+                }
                 Ok(Ok(Some(_))) => {}
                 _ => {
                     // noise: only if the translated sequence is a complete sequence by the Set 1 grammar
                     // (a translated break byte equal to E0/E1 would be a prefix there)
                     let last = *s1.last().unwrap();
                     if !(table == PLAIN && (last == 0xE0 || last == 0xE1)) {
-                        alphabet.push((s2, s1, false));
+                        alphabet.push(PairAct { s2, s1, compare: false, glitch: false });
                     }
                 }
             }
@@ -256,8 +276,16 @@ fn pair_bfs(ctx: &mut Ctx, layout: usize, mode: HandleControl) {
         let mut o2: Vec<Op> = vec![];
         let mut o1: Vec<Op> = vec![];
         for a in g.path_to(*si).iter().chain(std::iter::once(ai)) {
-            o2.extend(sys.alphabet[*a].0.iter().map(|x| Op::Type(*x)));
-            o1.extend(sys.alphabet[*a].1.iter().map(|x| Op::Type(*x)));
+            let act = &sys.alphabet[*a];
+            for (bytes, ops) in [(&act.s2, &mut o2), (&act.s1, &mut o1)] {
+                for (i, x) in bytes.iter().enumerate() {
+                    if act.glitch && i + 1 == bytes.len() {
+                        ops.push(Op::Bit(false));
+                        ops.push(Op::Clear);
+                    }
+                    ops.push(Op::Type(*x));
+                }
+            }
         }
         o2.push(Op::Mods);
         o1.push(Op::Mods);
@@ -271,7 +299,7 @@ fn pair_bfs(ctx: &mut Ctx, layout: usize, mode: HandleControl) {
     ctx.evaluations += g.edges;
     ctx.part(
         &format!("bfs:pair Keyboard<{},Set2> / Keyboard<{},Set1> mode {}", LAYOUT_NAMES[layout], LAYOUT_NAMES[layout], mode_name(mode)),
-        json!({"engine": "A (own BFS + stateright cross-check)", "key_sequences": sys.alphabet.iter().filter(|a| a.2).count(), "noise_sequences": sys.alphabet.iter().filter(|a| !a.2).count(), "product_states": g.states.len(), "transitions": g.edges, "max_depth": g.max_depth,
+        json!({"engine": "A (own BFS + stateright cross-check)", "key_sequences": sys.alphabet.iter().filter(|a| a.compare && !a.glitch).count(), "key_sequences_with_glitch": sys.alphabet.iter().filter(|a| a.glitch).count(), "noise_sequences": sys.alphabet.iter().filter(|a| !a.compare).count(), "product_states": g.states.len(), "transitions": g.edges, "max_depth": g.max_depth,
                "stateright_unique_states": sr.unique_states, "violating_edges": g.bads.len()}),
     );
     if g.capped {
